@@ -320,6 +320,10 @@ func handleSessionManagerHotRestart(sm *SessionManager, params interface{}) {
 	defer sm.Unlock()
 
 	hParams := params.(*sessionManagerHotRestartParams)
+	// the event was read before the manager was closed, or before the session which received it was closed.
+	if sm.ctx.Err() != nil || hParams.session.IsClosed() {
+		return
+	}
 	if sm.state == hotRestartState && sm.epoch != hParams.epoch {
 		internalLogger.warnf("SessionManager [epoch:%d] handleSessionManagerHotRestart get invalid params %+v ", sm.epoch, params)
 		verifTrace("MIgnore", sm, hParams.session, int64(hParams.epoch), 0)
